@@ -85,7 +85,8 @@ def _admitted_shapes(r_req, r_pos, r_va, r_kw):
 
 def _binds(fn, k, kws):
     try:
-        inspect.signature(fn).bind(*range(k), **kws)
+        # the signature a caller reaches: a functools.wraps-decorated method is called through its wrapper
+        inspect.signature(fn, follow_wrapped=False).bind(*range(k), **kws)
         return True
     except TypeError:
         return False
@@ -107,6 +108,12 @@ def check_pair(vals, mode):
     mode = mode.replace('-va', '')
     exec(_mk_src('m', vals['i_req'], vals['i_pos'], vals['i_va'], vals['i_kw'], self_=(mode not in ('attr', 'static', 'static-class') and not self_in_va), kwonly=vals.get('i_ko', False)), ns2)
     impl = ns2['m']
+    if mode == 'wrapped':
+        # a decorated method: the wrapper (generated signature) is what callers reach; the function it wraps takes something else
+        import functools
+        exec('def inner(self, q0, q1, q2, q3, q4, q5): pass\n', ns2)
+        impl = functools.wraps(ns2['inner'])(impl)
+        mode = 'method'
     if mode in ('static', 'static-class'):      # @staticmethod: no self, neither through the instance nor through the class
         K = implementer(I)(type('K', (object,), {'m': staticmethod(impl)}))
         target = K().m
@@ -299,7 +306,7 @@ def make_e_pairs(params, part, nparts):
             for m in ('attr', 'method', 'class'):
                 check_pair(vals, m)
             return
-        c_mode = pick(mode, 7)
+        c_mode = pick(mode, 8)
         c_rreq = pick(r_req, MAXR + 1)
         c_ropt = pick(r_opt, MAXO + 1)
         assume(((c_mode * (MAXR + 1) + c_rreq) * (MAXO + 1) + c_ropt) % nparts == part)
@@ -309,7 +316,7 @@ def make_e_pairs(params, part, nparts):
         c_if = pick(i_flags, 8)
         vals = dict(r_req=c_rreq, r_pos=c_rreq + c_ropt, r_va=bool(c_rf & 1), r_kw=bool(c_rf & 2), r_ko=bool(c_rf & 4),
                     i_req=c_ireq, i_pos=c_ireq + c_iopt, i_va=bool(c_if & 1), i_kw=bool(c_if & 2), i_ko=bool(c_if & 4))
-        m = ('attr', 'method', 'class', 'method-va', 'class-va', 'static', 'static-class')[c_mode]
+        m = ('attr', 'method', 'class', 'method-va', 'class-va', 'static', 'static-class', 'wrapped')[c_mode]
         assume(c_mode not in (3, 4) or (vals['i_va'] and vals['i_pos'] == 0))
         reached((c_mode, c_rreq, c_ropt, c_rf, c_ireq, c_iopt, c_if), dict(mode=m, **vals))
         native(check_pair, vals, m)
@@ -601,7 +608,7 @@ HARNESSES = [
             tiers=dict(quick=dict(budget_s=150, parts=16, params=dict(max_req=2, max_opt=2)),
                        thorough=dict(budget_s=900, parts=16, params=dict(max_req=3, max_opt=3))),
             encoded=_ENC,
-            bounds='required<=2(3), optional<=2(3), *args, **kw, a defaulted keyword-only parameter on both sides (5184 pairs quick) x {function attribute, bound method, verifyClass, methods whose self is collected by *args, @staticmethod through the instance and through verifyClass}',
+            bounds='required<=2(3), optional<=2(3), *args, **kw, a defaulted keyword-only parameter on both sides (5184 pairs quick) x {function attribute, bound method, verifyClass, methods whose self is collected by *args, @staticmethod through the instance and through verifyClass, a functools.wraps-decorated bound method}',
             outside='required keyword-only and positional-only parameters, builtins, parameter names',
             oracle='inspect.signature(impl).bind on every admitted call shape (arities req..pos, +1/+4 with *args, one foreign keyword with **kw)'),
     Harness('e_errors', make_e_errors, kind='E', impls=('py',),
